@@ -135,6 +135,18 @@ def run_(ctx, nvx):
     n = 120 if ctx.tier == "quick" else 2500
     if ctx.replay_path:
         rp = json.loads(Path(ctx.replay_path).read_text())["replay"]
+        if "sender" not in rp:
+            # a handshake-remainder replay: one receiver script
+            sc, fw = rp["script"], rp.get("fw", "twisted")
+            st = wsoracle.unhex(sc["ops"][0].split(",")[1])
+            j = ctx.driver.run([f"ws.judge {wsrun.cfg_token(sc['cfg'])} {wsgen.hx(st)}"])[0]
+            a = wsrun.run_impl([sc], fw, nproc=1)[0]
+            pr = wsoracle.Proj(a, sc["cfg"])
+            for key, what in wsoracle.check_recv(sc["cfg"], st, pr, j, lost_fed=False):
+                add("handshake-remainder:" + key, f"{fw}: {what}", {"script": sc, "fw": fw, "impl": a[:1500], "judge": j[:500]})
+            res.evaluations = 1
+            res.violations = list(viol.values())
+            return res
         senders = [rp["sender"]]
     else:
         senders = [gen_sender(ctx, i) for i in range(n)]
@@ -235,6 +247,15 @@ def run_(ctx, nvx):
         for sc, st, a, b, j in zip(hs_scripts, hmeta, impl, model, judge):
             pr = wsoracle.Proj(a, sc["cfg"])
             bad = wsoracle.check_recv(sc["cfg"], st, pr, j, lost_fed=False)
+            if bad:
+                # confirm in a fresh worker process: a worker runs hundreds of scripts on one (virtual) event loop, and a
+                # timer left behind by an earlier connection can show up in the shared transport trace of a later one
+                a2 = wsrun.run_impl([sc], fw, nproc=1)[0]
+                if a2 != a:
+                    res.notes.append(f"handshake-remainder/{fw}: an outcome seen inside a long worker run was not confirmed in a fresh process (order-dependent harness artefact, ignored): {a[:80]} vs {a2[:80]}")
+                    a = a2
+                    pr = wsoracle.Proj(a, sc["cfg"])
+                    bad = wsoracle.check_recv(sc["cfg"], st, pr, j, lost_fed=False)
             for key, what in bad:
                 add("handshake-remainder:" + key, f"{fw}: frames arriving in the same read as the handshake: {what}", {"script": sc, "fw": fw, "impl": a[:1500], "judge": j[:500]})
             if a != b:
